@@ -439,6 +439,15 @@ def r7_memo(ctx, rep):
         rep.ob("no cache in the Markdown layer", True, "links are computed per conversion", "ford/_markdown.py", nontrivial=False)
 
 
+
+def r8_one_page_per_file(ctx, rep):
+    """a Markdown file becomes a page of the same name: the output name is the file name with `.md` replaced once.
+    (generic rule `double_suffix_strip`; shared with C10, two pages must not share an output file)"""
+    from . import common
+    n = common.double_suffix_strip(ctx, rep)
+    if not n:
+        raise AnalysisError("no with_suffix() call found: the page-name derivation is not recognised")
+
 RULES = [
     RuleSpec("C17.R6", r6_links_and_empty_pages, "link fragments survive; an empty page is harmless", floor=1),
     RuleSpec("C17.R1", r1_containment, "containment of a bad page", floor=2),
@@ -446,5 +455,6 @@ RULES = [
     RuleSpec("C17.R3", r3_layout_names, "layout names agree", floor=4),
     RuleSpec("C17.R4", r4_conversion_path, "conversion path per page", floor=2),
     RuleSpec("C17.R5", r5_copy_for_every_page, "assets copied for every page", floor=2),
+    RuleSpec("C17.R8", r8_one_page_per_file, "the page name keeps every dot of the file name but the last suffix", floor=1),
     RuleSpec("C17.R7", r7_memo, "no cached link element outlives the page it was made for", floor=1),
 ]
